@@ -65,7 +65,7 @@ macro "ref_run" d:ident : tactic =>
   `(tactic| simp [$d:ident, Ref.runProgram, obsOfRef, Ref.evalBegin, Ref.eval, Ref.evalArgs, Ref.applyFn, Ref.bindParams, Ref.newFrame,
     Ref.evalCond, Ref.force, Ref.define, Ref.setVar, Ref.lookup, Ref.lookupIn, Ref.initSt, Ref.assocSet, Ref.globalNames, coreBuiltins,
     List.lookup, prim, isFunction, allInts, intOfLit, Ref.isLazyParam, rebindOk, tyOf, isCmp, compareVals,
-    cmpResult, truthy_bool, pr, showVal, printDepth, shows, mkList, Ref.evalList, showsB])
+    cmpResult, truthy_bool, pr, showVal, printDepth, shows, mkList, Ref.evalList, Ref.bindAll, Ref.evalLetSeq, Ref.evalAndOr, showsB])
 
 macro "wf_run" d:ident : tactic =>
   `(tactic| simp [$d:ident, Ref.wfList, Ref.wf, Ref.wfArms, Ref.wfBinds])
@@ -125,5 +125,110 @@ theorem closures_of_one_activation_share (a : Int) :
     ∃ fuel, obsOfVM (VM.runText fuel (progShare a) VM.initSt).1
       = some (.ok (showsB (BitVec.ofInt 64 a + 1#64 + 1#64 + 1#64)) [showsB (BitVec.ofInt 64 a + 1#64 + 1#64)]) :=
   lexical_instance 20 _ (Or.inl (progShare_in a)) (progShare_wf a) _ (progShare_ref a)
+
+/-- non-vacuity on concrete values: the counter starts at 5; after two increments `get` reads 7 (traced), after
+a third one 8 -/
+example : obsOfRef (Ref.runProgram 20 (progShare 5) Ref.initSt).1 = some (.ok "8" ["7"])
+    ∧ ∃ fuel, obsOfVM (VM.runText fuel (progShare 5) VM.initSt).1 = some (.ok "8" ["7"]) :=
+  ⟨progShare_ref 5, closures_of_one_activation_share 5⟩
+
+/-! ### (c) Every activation gets fresh variables
+
+`(defn mk [c] (fn [] (set c (+ c 1)))) (def k1 (mk a)) (def k2 (mk b)) (trace (k1)) (trace (k1)) (k2)`:
+two activations of the same function, two independent counters — `k2` answers `b+1` whatever was done
+through `k1`. -/
+def progFresh (a b : Int) : List Expr :=
+  [.defn "mk" ["c"] none [.fn [] none [.set_ "c" (.call (.sym "+") [.sym "c", .int 1])]],
+   .def_ "k1" (.call (.sym "mk") [.int a]), .def_ "k2" (.call (.sym "mk") [.int b]),
+   .call (.sym "trace") [.call (.sym "k1") []], .call (.sym "trace") [.call (.sym "k1") []],
+   .call (.sym "k2") []]
+
+theorem progFresh_in (a b : Int) : FtList (progFresh a b) = true := by ft_mem2 progFresh
+theorem progFresh_wf (a b : Int) : Ref.wfList {} (progFresh a b) = true := by wf_run progFresh
+
+set_option maxRecDepth 8000 in
+theorem progFresh_ref (a b : Int) :
+    obsOfRef (Ref.runProgram 20 (progFresh a b) Ref.initSt).1
+      = some (.ok (showsB (BitVec.ofInt 64 b + 1#64))
+          [showsB (BitVec.ofInt 64 a + 1#64), showsB (BitVec.ofInt 64 a + 1#64 + 1#64)]) := by
+  ref_run progFresh
+
+theorem fresh_variables_per_activation (a b : Int) :
+    ∃ fuel, obsOfVM (VM.runText fuel (progFresh a b) VM.initSt).1
+      = some (.ok (showsB (BitVec.ofInt 64 b + 1#64))
+          [showsB (BitVec.ofInt 64 a + 1#64), showsB (BitVec.ofInt 64 a + 1#64 + 1#64)]) :=
+  lexical_instance 20 _ (Or.inl (progFresh_in a b)) (progFresh_wf a b) _ (progFresh_ref a b)
+
+example : obsOfRef (Ref.runProgram 20 (progFresh 10 20) Ref.initSt).1 = some (.ok "21" ["11", "12"])
+    ∧ ∃ fuel, obsOfVM (VM.runText fuel (progFresh 10 20) VM.initSt).1 = some (.ok "21" ["11", "12"]) :=
+  ⟨progFresh_ref 10 20, fresh_variables_per_activation 10 20⟩
+
+/-! ### (d) Captured variables outlive the activation that made them
+
+`(defn mk [x] (let [y x] (fn [] (set y (+ y 1))))) (def k (mk a))
+(defn other [y] (newScope (def x y) x)) (other b) (other b) (trace (k)) (k)`: the closure is used after
+`mk` returned and its `let` scope was left, and after other activations and scopes binding the same
+names came and went; the variable is still there, still assignable. -/
+def progOutlive (a b : Int) : List Expr :=
+  [.defn "mk" ["x"] none [.let_ false [("y", .sym "x")]
+      [.fn [] none [.set_ "y" (.call (.sym "+") [.sym "y", .int 1])]]],
+   .def_ "k" (.call (.sym "mk") [.int a]),
+   .defn "other" ["y"] none [.newScope [.def_ "x" (.sym "y"), .sym "x"]],
+   .call (.sym "other") [.int b], .call (.sym "other") [.int b],
+   .call (.sym "trace") [.call (.sym "k") []], .call (.sym "k") []]
+
+theorem progOutlive_in (a b : Int) : FtList (progOutlive a b) = true := by ft_mem2 progOutlive
+theorem progOutlive_wf (a b : Int) : Ref.wfList {} (progOutlive a b) = true := by wf_run progOutlive
+
+set_option maxRecDepth 8000 in
+theorem progOutlive_ref (a b : Int) :
+    obsOfRef (Ref.runProgram 20 (progOutlive a b) Ref.initSt).1
+      = some (.ok (showsB (BitVec.ofInt 64 a + 1#64 + 1#64)) [showsB (BitVec.ofInt 64 a + 1#64)]) := by
+  ref_run progOutlive
+
+theorem captured_outlives_activation (a b : Int) :
+    ∃ fuel, obsOfVM (VM.runText fuel (progOutlive a b) VM.initSt).1
+      = some (.ok (showsB (BitVec.ofInt 64 a + 1#64 + 1#64)) [showsB (BitVec.ofInt 64 a + 1#64)]) :=
+  lexical_instance 20 _ (Or.inl (progOutlive_in a b)) (progOutlive_wf a b) _ (progOutlive_ref a b)
+
+example : obsOfRef (Ref.runProgram 20 (progOutlive 3 100) Ref.initSt).1 = some (.ok "5" ["4"])
+    ∧ ∃ fuel, obsOfVM (VM.runText fuel (progOutlive 3 100) VM.initSt).1 = some (.ok "5" ["4"]) :=
+  ⟨progOutlive_ref 3 100, captured_outlives_activation 3 100⟩
+
+/-! ### (e) A self tail call gets a fresh scope
+
+`(defn lp [n v acc] (def f (fn [] v)) (cond (== n 0) acc (lp (- n 1) (+ v 1) (cons f acc))))
+(def fs (lp 2 a ())) (trace ((first fs))) ((second fs))`: `lp` iterates by the self-tail-call jump
+(`goto 0` after `removeScope`s, then `AddFuncScope` again); every iteration makes a closure over ITS
+parameter `v`. The closure of the second iteration answers `a+1`, the one of the first `a` — not the
+value of the last iteration, as they would if the jump re-used the function scope. The program is in F2c
+and not in F2 (`progTail_notF2`): the theorem used is `compile_correct_on_F2c`. -/
+def progTail (a : Int) : List Expr :=
+  [.defn "lp" ["n", "v", "acc"] none [.def_ "f" (.fn [] none [.sym "v"]),
+      .cond [(.call (.sym "==") [.sym "n", .int 0], .sym "acc")]
+        (.call (.sym "lp") [.call (.sym "-") [.sym "n", .int 1], .call (.sym "+") [.sym "v", .int 1],
+          .call (.sym "cons") [.sym "f", .sym "acc"]])],
+   .def_ "fs" (.call (.sym "lp") [.int 2, .int a, .nilLit]),
+   .call (.sym "trace") [.call (.call (.sym "first") [.sym "fs"]) []],
+   .call (.call (.sym "second") [.sym "fs"]) []]
+
+theorem progTail_in (a : Int) : FyList (progTail a) = true := by fy_mem progTail
+theorem progTail_notF2 (a : Int) : FtList (progTail a) = false := by fy_mem progTail
+theorem progTail_wf (a : Int) : Ref.wfList {} (progTail a) = true := by wf_run progTail
+
+set_option maxRecDepth 8000 in
+theorem progTail_ref (a : Int) :
+    obsOfRef (Ref.runProgram 40 (progTail a) Ref.initSt).1
+      = some (.ok (showsB (BitVec.ofInt 64 a)) [showsB (BitVec.ofInt 64 a + 1#64)]) := by
+  ref_run progTail
+
+theorem tail_call_gets_fresh_scope (a : Int) :
+    ∃ fuel, obsOfVM (VM.runText fuel (progTail a) VM.initSt).1
+      = some (.ok (showsB (BitVec.ofInt 64 a)) [showsB (BitVec.ofInt 64 a + 1#64)]) :=
+  lexical_instance 40 _ (Or.inr (progTail_in a)) (progTail_wf a) _ (progTail_ref a)
+
+example : obsOfRef (Ref.runProgram 40 (progTail 7) Ref.initSt).1 = some (.ok "7" ["8"])
+    ∧ ∃ fuel, obsOfVM (VM.runText fuel (progTail 7) VM.initSt).1 = some (.ok "7" ["8"]) :=
+  ⟨progTail_ref 7, tail_call_gets_fresh_scope 7⟩
 
 end ZygoVerif.C03
